@@ -1,5 +1,192 @@
-//! Harness binary for property C04 (line protocol; see /verif/vlib/BUILDER_GUIDE.md).
+//! Protocol `backends` (C04): every op line becomes a few samlang statements whose operands are
+//! run-time values (`"…".toInt()` is opaque to the optimiser); the statements are compiled
+//! in-process by the real `samlang_compiler::compile_sources` and the emitted TypeScript and
+//! WebAssembly are both executed under Node >= 22 (shared oracle, `samverif_harness::exec`).
+//!
+//! stdin : one op per line; a leading `!` = compile this line as its own program, otherwise up to
+//!         BATCH consecutive lines share one program (separated by marker lines on stdout).
+//!   bin <OP> <a> <b>      Str.fromInt(a OP b)            (OP in MUL DIV MOD PLUS MINUS LT LE GT GE EQ NE)
+//!   str <hex utf8>        Process.println("<raw>")        raw pasted between the quotes as is
+//!   i2s <n>               Str.fromInt(n)
+//!   s2i <hex utf8>        Str.fromInt("<text>".toInt())   text = plain characters only
+//!   vec <op> ...          push:v pop get:i set:i:v len on one Vec<int>; prints u / v<n> per call
+//! stdout: per line  `T <hex text> <hex end|-> W <hex text> <hex end|->`   (TypeScript, WebAssembly)
+//!         or `C <hex msg>` (rejected by the compiler), `X <hex msg>` (compiler panicked),
+//!         `unsupported`; text = what the line printed; end = how the program terminated if it
+//!         terminated inside this line; `unreached` instead of a leg if the program ended earlier.
+use rayon::prelude::*;
+use samverif_harness::exec::*;
+use samverif_harness::util::*;
+use std::io::BufRead;
+use std::time::Duration;
+
+const BATCH: usize = 40;
+const MARK: &str = "@@";
+
+fn int_lit(n: &str) -> Option<String> {
+  let ok = {
+    let d = n.strip_prefix('-').unwrap_or(n);
+    !d.is_empty() && d.len() <= 10 && d.bytes().all(|b| b.is_ascii_digit())
+  };
+  if ok { Some(format!("\"{n}\".toInt()")) } else { None }
+}
+
+fn snippet(line: &str) -> Option<String> {
+  let t: Vec<&str> = line.split(' ').filter(|s| !s.is_empty()).collect();
+  let p = |e: String| format!("    let _ = Process.println({e});\n");
+  match t.as_slice() {
+    ["bin", op, a, b] => {
+      let (a, b) = (int_lit(a)?, int_lit(b)?);
+      let arith = |s: &str| Some(p(format!("Str.fromInt({a} {s} {b})")));
+      let cmp = |s: &str| Some(p(format!("Str.fromInt(if {a} {s} {b} {{ 1 }} else {{ 0 }})")));
+      match *op {
+        "MUL" => arith("*"),
+        "DIV" => arith("/"),
+        "MOD" => arith("%"),
+        "PLUS" => arith("+"),
+        "MINUS" => arith("-"),
+        "LT" => cmp("<"),
+        "LE" => cmp("<="),
+        "GT" => cmp(">"),
+        "GE" => cmp(">="),
+        "EQ" => cmp("=="),
+        "NE" => cmp("!="),
+        _ => None,
+      }
+    }
+    ["str", h] => {
+      let raw = String::from_utf8(unhex(h)).ok()?;
+      Some(p(format!("\"{raw}\"")))
+    }
+    ["i2s", n] => Some(p(format!("Str.fromInt({})", int_lit(n)?))),
+    ["s2i", h] => {
+      let s = String::from_utf8(unhex(h)).ok()?;
+      if s.chars().any(|c| c == '"' || c == '\\' || c == '`' || c == '$' || (c as u32) < 32 || (c as u32) > 126) {
+        return None;
+      }
+      Some(p(format!("Str.fromInt(\"{s}\".toInt())")))
+    }
+    ["vec", ops @ ..] => {
+      let mut s = String::from("    let v = Vec.empty<int>();\n");
+      for o in ops {
+        let f: Vec<&str> = o.split(':').collect();
+        match f.as_slice() {
+          ["push", v] => {
+            s.push_str(&format!("    let _ = v.push({});\n", int_lit(v)?));
+            s.push_str(&p("\"u\"".to_string()));
+          }
+          ["pop"] => s.push_str(&p("\"v\" :: Str.fromInt(v.pop())".to_string())),
+          ["get", i] => s.push_str(&p(format!("\"v\" :: Str.fromInt(v.get({}))", int_lit(i)?))),
+          ["set", i, v] => {
+            s.push_str(&format!("    let _ = v.set({}, {});\n", int_lit(i)?, int_lit(v)?));
+            s.push_str(&p("\"u\"".to_string()));
+          }
+          ["len"] => s.push_str(&p("\"v\" :: Str.fromInt(v.length())".to_string())),
+          _ => return None,
+        }
+      }
+      Some(s)
+    }
+    _ => None,
+  }
+}
+
+struct Prog {
+  idx: Vec<usize>,
+  source: String,
+}
+
+/// Splits one back end's output into per-line legs.
+fn legs(r: &RunResult, n: usize) -> Vec<String> {
+  let mut out = Vec::new();
+  let mut cur: Vec<&str> = Vec::new();
+  let mut it = r.lines.iter();
+  let mut ended = false;
+  for _ in 0..n {
+    if ended {
+      out.push("unreached".to_string());
+      continue;
+    }
+    let mut closed = false;
+    for l in it.by_ref() {
+      if l == MARK {
+        closed = true;
+        break;
+      }
+      cur.push(l);
+    }
+    let text = cur.join("\n");
+    cur.clear();
+    if closed {
+      out.push(format!("{} -", hex(text.as_bytes())));
+    } else {
+      ended = true;
+      out.push(format!("{} {}", hex(text.as_bytes()), hex(r.end.as_bytes())));
+    }
+  }
+  out
+}
+
 fn main() {
-  eprintln!("c04: not implemented yet");
-  std::process::exit(2);
+  std::panic::set_hook(Box::new(|_| {}));
+  let lines: Vec<String> =
+    std::io::stdin().lock().lines().map(|l| l.unwrap().trim_end().to_string()).filter(|l| !l.is_empty()).collect();
+  let mut answers: Vec<String> = vec![String::new(); lines.len()];
+  let mut progs: Vec<Prog> = Vec::new();
+  let mut cur: Option<Prog> = None;
+  let wrap = |body: &str| format!("class Main {{\n  function main(): unit = {{\n{body}  }}\n}}\n");
+  for (i, raw) in lines.iter().enumerate() {
+    let (solo, l) = match raw.strip_prefix('!') {
+      Some(r) => (true, r),
+      None => (false, raw.as_str()),
+    };
+    let Some(sn) = snippet(l) else {
+      answers[i] = "unsupported".to_string();
+      continue;
+    };
+    let sn = format!("{sn}    let _ = Process.println(\"{MARK}\");\n");
+    if solo || l.starts_with("vec") {
+      progs.push(Prog { idx: vec![i], source: sn });
+    } else {
+      let c = cur.get_or_insert_with(|| Prog { idx: vec![], source: String::new() });
+      c.idx.push(i);
+      c.source.push_str(&sn);
+      if c.idx.len() >= BATCH {
+        progs.push(cur.take().unwrap());
+      }
+    }
+  }
+  if let Some(c) = cur.take() {
+    progs.push(c);
+  }
+  let results: Vec<Vec<String>> = progs
+    .par_iter()
+    .enumerate()
+    .map(|(k, p)| {
+      let src = wrap(&p.source);
+      let n = p.idx.len();
+      match compile_program(&[("Main".to_string(), src)], "Main", false) {
+        CompileOutcome::Errors(e) => {
+          let first = e.lines().find(|l| !l.trim().is_empty() && !l.starts_with("Error -")).unwrap_or("").trim().to_string();
+          vec![format!("C {}", hex(first.as_bytes())); n]
+        }
+        CompileOutcome::Panic(e) => vec![format!("X {}", hex(e.as_bytes())); n],
+        CompileOutcome::Ok(c) => {
+          let runs = run_compiled(&c, &scratch_dir("c04", k), Duration::from_millis(20000), true);
+          let t = legs(&runs.ts, n);
+          let w = legs(&runs.wasm, n);
+          (0..n).map(|j| format!("T {} W {}", t[j], w[j])).collect()
+        }
+      }
+    })
+    .collect();
+  cleanup_scratch("c04");
+  for (p, r) in progs.iter().zip(results) {
+    for (j, i) in p.idx.iter().enumerate() {
+      answers[*i] = r[j].clone();
+    }
+  }
+  for a in answers {
+    println!("{a}");
+  }
 }
